@@ -40,6 +40,7 @@ type ins struct {
 }
 
 type file struct {
+	fn    string // enclosing function declaration (part of every site label)
 	path  string
 	rel   string
 	src   []byte
@@ -61,7 +62,7 @@ func (f *file) add(p token.Pos, text string) {
 }
 func (f *file) site(n ast.Node, kind string) string {
 	p := f.fset.Position(n.Pos())
-	return fmt.Sprintf("%s:%d:%s", f.rel, p.Line, kind)
+	return fmt.Sprintf("%s:%d:%s:%s", f.rel, p.Line, kind, f.fn)
 }
 func (f *file) text(n ast.Node) string {
 	return string(f.src[f.fset.Position(n.Pos()).Offset:f.fset.Position(n.End()).Offset])
@@ -232,6 +233,7 @@ type visitor struct{ f *file }
 func (v visitor) Visit(n ast.Node) ast.Visitor {
 	switch b := n.(type) {
 	case *ast.FuncDecl:
+		v.f.fn = b.Name.Name
 		if b.Body != nil && goTargets[b.Name.Name] {
 			v.f.add(b.Body.Lbrace+1, fmt.Sprintf(" simrt.Yield(%q);", v.f.site(b, "entry")))
 		}
